@@ -101,7 +101,8 @@ fn tok_step(out: &mut Out, w: &mut World<Tok>, rng: &mut Rng, with_mul: bool) {
         w.drop_reg(out, b);
         w.new_matrix(out, b, *rng.pick(&ORDERS), nr, nc, 500);
     }
-    match rng.below(if with_mul { 17 } else { 10 }) {
+    let pick = if with_mul { rng.below(19) } else { let x = rng.below(11); if x == 10 { 17 } else { x } };
+    match pick {
         0 => { if dst != a && dst != b { w.ew(out, dst, a, b, "ref", *rng.pick(&["gen", "add", "sub", "mul", "div", "rem"])); } else { w.apply(out, a); } }
         1 => { if dst != b { w.ew(out, dst, a, b, "consume", *rng.pick(&["gen", "add", "sub"])); } else { w.apply(out, a); } }
         2 => w.ew(out, a, a, b, "assign", *rng.pick(&["gen", "add", "sub", "mul"])),
@@ -134,7 +135,14 @@ fn tok_step(out: &mut Out, w: &mut World<Tok>, rng: &mut Rng, with_mul: bool) {
         }
         14 => w.ctor(out, dst, *rng.pick(&["with_value", "with_default", "with_init"]), rng.below(5), rng.below(5)),
         15 => w.from_vec(out, dst, rng.coin(), rng.below(6)),
-        _ => w.scgen(out, dst, a, *rng.pick(&["ref", "consume", "assign"])),
+        16 => w.scgen(out, dst, a, *rng.pick(&["ref", "consume", "assign"])),
+        _ => {
+            // a resize during which one caller-code invocation panics; the history goes on with the survivor
+            let (tr, tc) = (rng.below(5), rng.below(5));
+            let callbacks = (tr * tc).abs_diff(nr * nc) as u64;
+            let k = if callbacks == 0 || rng.below(5) == 0 { callbacks + rng.below(2) as u64 } else { rng.below(callbacks as usize) as u64 };
+            w.fresize(out, a, k, tr, tc);
+        }
     }
 }
 
